@@ -15,27 +15,33 @@ import (
 // runC17S2: the content type is sniffed only when the header KEY is absent.
 func runC17S2(c *Ctx) {
 	n := 0
+	// "the key is absent": a comma-ok map lookup of Content-Type in an http.Header said no. It may be spelled inline, as
+	// a boolean helper (`hasKey(h, k)`), negated, or kept in a variable; it may guard a helper that does the write.
+	absent := func(v ssa.Value, truth bool) bool {
+		ex, ok := v.(*ssa.Extract)
+		if !ok || ex.Index != 1 || truth {
+			return false
+		}
+		lk, ok := ex.Tuple.(*ssa.Lookup)
+		if !ok || !lk.CommaOk || typeStr(lk.X.Type()) != "net/http.Header" {
+			return false
+		}
+		return derives(lk.Index, func(w ssa.Value) bool { s, isS := constString(w); return isS && s == "Content-Type" })
+	}
 	for _, f := range c.fnsWhere("proxy/gzip", func(*ssa.Function) bool { return true }) {
 		eachInstr(f, func(i ssa.Instruction) {
-			cc := callCommon(i)
-			if cc == nil || calleeName(cc) != "(net/http.Header).Set" || len(cc.Args) != 3 {
-				return
+			var val ssa.Value
+			if cc := callCommon(i); cc != nil && len(cc.Args) == 3 && (calleeName(cc) == "(net/http.Header).Set" || calleeName(cc) == "(net/http.Header).Add") {
+				val = cc.Args[2]
+			} else if mu, ok := i.(*ssa.MapUpdate); ok && typeStr(mu.Map.Type()) == "net/http.Header" {
+				val = mu.Value
 			}
-			if !derives(cc.Args[2], func(v ssa.Value) bool { _, ok := isCallTo(v, "net/http.DetectContentType"); return ok }) {
+			if val == nil || !derives(val, func(v ssa.Value) bool { _, ok := isCallTo(v, "net/http.DetectContentType"); return ok }) {
 				return
 			}
 			n++
-			// the guard: a comma-ok map lookup said "absent"; a Get() == "" comparison does not distinguish a suppressed
-			// (nil / empty) Content-Type from an absent one
-			absent := false
-			for _, ft := range factsAt(i.Block()) {
-				if ex, ok := ft.Cond.(*ssa.Extract); ok && ex.Index == 1 && !ft.Truth {
-					if lk, ok := ex.Tuple.(*ssa.Lookup); ok && lk.CommaOk {
-						absent = true
-					}
-				}
-			}
-			c.check("C17.S2", fnKey(f)+"|content type sniffed only when the header key is absent", i.Pos(), absent,
+			// a Get() == "" comparison does not distinguish a suppressed (nil / empty) Content-Type from an absent one
+			c.check("C17.S2", fnKey(f)+"|content type sniffed only when the header key is absent", i.Pos(), c17holdsAtom(i.Block(), absent, 0),
 				"the sniffed type is written although the Content-Type key may be present: a handler that sets the key to nil (net/http's way to suppress sniffing) or to an empty value must be passed through untouched; 'Header().Get(k) == \"\"' cannot tell that from an absent key, the sniffed type then matches the configured expression and a response that must be delivered byte for byte is compressed")
 		})
 	}
@@ -106,8 +112,16 @@ func runC17F2(c *Ctx) {
 
 // c17isDecisionField: a field of type io.Writer (the decided writer of the gzip response writer).
 func c17isDecisionField(v ssa.Value) bool {
-	_, ok := fieldOfType(v, "io.Writer")
-	return ok
+	if u, ok := v.(*ssa.UnOp); ok && u.Op == token.MUL {
+		v = u.X
+	}
+	fa, ok := v.(*ssa.FieldAddr)
+	if !ok {
+		return false
+	}
+	p, ok := fa.Type().Underlying().(*types.Pointer)
+	// io.Writer, io.WriteCloser, a package-local interface embedding io.Writer: can take the body, is not a ResponseWriter
+	return ok && c17writerIface(p.Elem())
 }
 
 // c17ensures: instruction i makes the decision field non-nil: a store to it, or a call of a repository function on
@@ -165,6 +179,11 @@ func c17reachUndecided(b *ssa.BasicBlock, idx int, target ssa.Instruction, depth
 						if nn, ok := nilFact(ft, c17isDecisionField); ok && nn {
 							known = true
 						}
+						if k := c17theKit; k != nil {
+							if d, isF := k.flagFact(ft); isF && d {
+								known = true // an explicit `decided` flag that is tied to the writer field (see decisionFlags)
+							}
+						}
 					}
 				}
 			}
@@ -176,17 +195,4 @@ func c17reachUndecided(b *ssa.BasicBlock, idx int, target ssa.Instruction, depth
 		}
 	}
 	return false
-}
-
-// fieldOfType: v is a load/address of a field whose type is typ.
-func fieldOfType(v ssa.Value, typ string) (ssa.Value, bool) {
-	if u, ok := v.(*ssa.UnOp); ok && u.Op == token.MUL {
-		v = u.X
-	}
-	if fa, ok := v.(*ssa.FieldAddr); ok {
-		if p, ok := fa.Type().Underlying().(*types.Pointer); ok && typeStr(p.Elem()) == typ {
-			return fa.X, true
-		}
-	}
-	return nil, false
 }
